@@ -81,7 +81,7 @@ class Stream:
         pass
 
 
-def drive_loop(cr, cu, lines, sub, mb, heuristic='MI-numba-randomized'):
+def drive_loop(cr, cu, lines, sub, mb, heuristic='MI-numba-randomized', data_source='csv-raw', delimiter=','):
     """real estimate_importances_minibatches over a list of lines with a recording batch scorer; returns the observations"""
     import pandas as pd
     from outrank.core_utils import BatchRankingSummary
@@ -111,10 +111,10 @@ def drive_loop(cr, cu, lines, sub, mb, heuristic='MI-numba-randomized'):
     cr.open = lambda *a, **k: Stream(lines)
     log = PL.Logger()
     import types
-    args = types.SimpleNamespace(disable_tqdm='True', data_source='csv-raw', heuristic=heuristic, task='ranking', subsampling=sub, minibatch_size=mb)
+    args = types.SimpleNamespace(disable_tqdm='True', data_source=data_source, heuristic=heuristic, task='ranking', subsampling=sub, minibatch_size=mb)
     os.chdir(d)
     try:
-        out = cr.estimate_importances_minibatches('data.csv', COLS, None, set(), args=args, cpu_pool=None, delimiter=',', logger=log)
+        out = cr.estimate_importances_minibatches('data.csv', COLS, None, set(), args=args, cpu_pool=None, delimiter=delimiter, logger=log)
         rec['final_ckpt'] = pd.read_csv('ranking_checkpoint_tmp.tsv', sep='\t', index_col=0) if os.path.exists('ranking_checkpoint_tmp.tsv') else None
     finally:
         os.chdir(cwd)
@@ -184,15 +184,15 @@ def check_loop(rec, kinds, sub, mb, tail_min=1024):
 
 # ---- end-to-end task ---------------------------------------------------------------------------
 
-def drive_task(lines, sub, mb, heuristic='MI-numba-randomized', scores=None):
+def drive_task(lines, sub, mb, heuristic='MI-numba-randomized', scores=None, cols=None, extra=(), scorefn=None):
     import pandas as pd
     cr, cu, tr, ie = PL.real_modules()
     d = tempfile.mkdtemp(prefix='c08t-', dir='/var/tmp')
     os.makedirs(os.path.join(d, 'in'))
     with open(os.path.join(d, 'in', 'data.csv'), 'w') as f:
-        f.write(','.join(COLS) + '\n' + ''.join(lines))
+        f.write(','.join(cols or COLS) + '\n' + ''.join(lines))
     args = PL.cli_args(['--data_path', os.path.join(d, 'in'), '--data_source', 'csv-raw', '--output_folder', os.path.join(d, 'out'), '--heuristic', heuristic,
-                        '--subsampling', str(sub), '--minibatch_size', str(mb), '--disable_tqdm', 'True', '--num_threads', '1', '--target_ranking_only', 'False'])
+                        '--subsampling', str(sub), '--minibatch_size', str(mb), '--disable_tqdm', 'True', '--num_threads', '1', '--target_ranking_only', 'False'] + list(extra))
     PL.fresh_state()
     rec = {'batches': [], 'trip': [], 'cov': []}
     real_cbr = cr.compute_batch_ranking
@@ -200,6 +200,9 @@ def drive_task(lines, sub, mb, heuristic='MI-numba-randomized', scores=None):
     def wrap(line_tmp_storage, *a, **k):
         rec['batches'].append([list(r) for r in line_tmp_storage])
         r = real_cbr(line_tmp_storage, *a, **k)
+        if scorefn:
+            from outrank.core_utils import BatchRankingSummary
+            r = (BatchRankingSummary([(x, y, scorefn(x, y)) for x, y, sc in r[0].triplet_scores], r[0].step_times),) + tuple(r[1:])
         if scores:
             # the scorer's values for three pairs are replaced by solver-chosen near-ties (both orientations alike)
             from outrank.core_utils import BatchRankingSummary
@@ -223,6 +226,8 @@ def drive_task(lines, sub, mb, heuristic='MI-numba-randomized', scores=None):
             res['ranks'] = pd.read_csv(os.path.join(out, 'pairwise_ranks.tsv'), sep='\t', keep_default_na=False).values.tolist()
             res['reps'] = json.load(open(os.path.join(out, 'value_repetitions.json')))
             res['combs'] = json.load(open(os.path.join(out, 'combination_estimation_counts.json')))
+            if os.path.exists(os.path.join(out, '3mr_ranks.tsv')):
+                res['3mr'] = pd.read_csv(os.path.join(out, '3mr_ranks.tsv'), sep='\t', keep_default_na=False).values.tolist()
         res['ckpt_left'] = os.path.exists('ranking_checkpoint_tmp.tsv')
     finally:
         os.chdir(cwd)
